@@ -45,6 +45,11 @@ TMINS = [1e-3, 7.442, 1e3, 7]     # the last one is an int, as YAML gives it
 _SETS = {}
 
 
+def decoy():
+    from mc.lib import decoy as decoy_mod
+    decoy_mod.functions()
+
+
 def BOUND(tier):
     return ('%s knot subsets x 6 conductivity patterns x 4 minimum '
             'transmissivities x 3K+1 levels x {scalar, list, ndarray}'
